@@ -1,0 +1,85 @@
+//go:build verif
+
+package ds
+
+// Contracts for ds.Set (property C11, deadlock clause), read by the verification machinery in /verif.
+// Comment-only file.
+//
+// applyMutex protocol: single-element writers (Add, Delete) and the bulk operations AddAll / DeleteAll hold
+// it for reading, Apply / Compute / Replace for writing. sync.RWMutex is not re-entrant - a second RLock by
+// a goroutine that already holds the read lock deadlocks as soon as a writer queues in between - so no
+// method may acquire applyMutex (in any mode) while holding it. That is a lock.reentrant / precondition
+// obligation on every path, including the closures the bulk operations hand to ForEach / Range, which run
+// inside the caller's critical section (opt invokes). Lock levels: applyMutex 7 < OrderedMap.mutex 8 <
+// ShrinkingMap.mutex 9.
+
+/*@
+type set
+  monitor applyMutex level 7 guards
+
+-- constructors and foreign set objects: assumed not to touch the set under proof
+assume-func github.com/iotaledger/hive.go/ds.NewSet(elements) (r)
+  ensures r != nil
+assume-func github.com/iotaledger/hive.go/ds.NewSetMutations(elements) (r)
+  ensures r != nil
+assume-func github.com/iotaledger/hive.go/lo.Return2(a, b) (r)
+  ensures r == b
+
+-- iteration interfaces: invoke the callback sequentially in the caller's goroutine, locks unchanged
+func ReadableSet.ForEach(recv, callback) (err)
+  opt invokes callback
+func ReadableSet.Range(recv, callback)
+  opt invokes callback
+func ReadableSet.ToSlice(recv) (r)
+  ensures true
+func Set.Add(recv, element) (r)
+  ensures true
+func SetMutations.AddedElements(recv) (r)
+  ensures r != nil
+func SetMutations.DeletedElements(recv) (r)
+  ensures r != nil
+func SetMutations.WithAddedElements(recv, e) (r)
+  ensures r != nil
+func SetMutations.WithDeletedElements(recv, e) (r)
+  ensures r != nil
+
+func set.Add
+  opt sequential
+  requires s != nil && s.readableSet != nil && s.readableSet.SerializableOrderedMap != nil && s.readableSet.SerializableOrderedMap.OrderedMap != nil
+  requires unlocked(s.applyMutex) && unlocked(s.readableSet.SerializableOrderedMap.OrderedMap.mutex)
+  modifies everything
+  ensures unlocked(s.applyMutex)
+
+func set.Delete
+  opt sequential
+  requires s != nil && s.readableSet != nil && s.readableSet.SerializableOrderedMap != nil && s.readableSet.SerializableOrderedMap.OrderedMap != nil
+  requires unlocked(s.applyMutex) && unlocked(s.readableSet.SerializableOrderedMap.OrderedMap.mutex)
+  modifies everything
+  ensures unlocked(s.applyMutex)
+
+func set.AddAll
+  opt sequential
+  requires s != nil && elements != nil && s.readableSet != nil && s.readableSet.SerializableOrderedMap != nil && s.readableSet.SerializableOrderedMap.OrderedMap != nil
+  requires unlocked(s.applyMutex) && unlocked(s.readableSet.SerializableOrderedMap.OrderedMap.mutex)
+  modifies everything
+  ensures unlocked(s.applyMutex)
+func set.AddAll$1
+  opt sequential
+  requires s != nil && *s != nil && (*s).readableSet != nil && (*s).readableSet.SerializableOrderedMap != nil && (*s).readableSet.SerializableOrderedMap.OrderedMap != nil && addedElements != nil && *addedElements != nil
+  requires rheld((*s).applyMutex) && unlocked((*s).readableSet.SerializableOrderedMap.OrderedMap.mutex)
+  modifies everything
+  ensures rheld((*s).applyMutex)
+
+func set.DeleteAll
+  opt sequential
+  requires s != nil && other != nil && s.readableSet != nil && s.readableSet.SerializableOrderedMap != nil && s.readableSet.SerializableOrderedMap.OrderedMap != nil
+  requires unlocked(s.applyMutex) && unlocked(s.readableSet.SerializableOrderedMap.OrderedMap.mutex)
+  modifies everything
+  ensures unlocked(s.applyMutex)
+func set.DeleteAll$1
+  opt sequential
+  requires s != nil && *s != nil && (*s).readableSet != nil && (*s).readableSet.SerializableOrderedMap != nil && (*s).readableSet.SerializableOrderedMap.OrderedMap != nil && removedElements != nil && *removedElements != nil
+  requires rheld((*s).applyMutex) && unlocked((*s).readableSet.SerializableOrderedMap.OrderedMap.mutex)
+  modifies everything
+  ensures rheld((*s).applyMutex)
+@*/
